@@ -281,7 +281,7 @@ func (g *Engine) setHead(b int) {
 	}
 	for k, l := range was.Locks {
 		n := now.Locks[k]
-		if n == nil || n.Balance.Cmp(l.Balance) != 0 || n.Unlock != l.Unlock || n.Elements != l.Elements || n.Delegate != l.Delegate {
+		if n == nil || n.Balance.Cmp(l.Balance) != 0 || n.Unlock != l.Unlock || n.Elements != l.Elements || !n.Delegate.Equal(l.Delegate) {
 			ok = false
 			have := "absent"
 			if n != nil {
